@@ -26,6 +26,11 @@ impl BytesMut {
     #[verifier::external_body]
     pub fn chunk_mut(&mut self) -> (r: &mut UninitSlice) ensures final(self)@ == old(self)@, final(self).reserve_bound == old(self).reserve_bound { unimplemented!() }
 }
+// a bytes::Buf handed to EncodeBuf::put (possibly non-contiguous, A-bytes-29): all its bytes, their number, and its first chunk
+pub trait SrcBuf: HasBytes {
+    fn remaining(&self) -> (r: usize) ensures r == self.bytes_view().len();
+    fn chunk(&self) -> (r: &[u8]) ensures r@.len() <= self.bytes_view().len(), r@ == self.bytes_view().take(r@.len() as int), self.bytes_view().len() > 0 ==> r@.len() > 0;
+}
 // assert!(c): panics unless c - under contract that is a precondition of the enclosing function (shadow macro: the condition
 // is an `if` whose failing branch must be shown unreachable, so a call that could trip it does not verify)
 #[allow(unused_macros)]
@@ -78,7 +83,7 @@ impl<'a> EncodeBuf<'a> {
          ensures=[Clause('E6_advancing_keeps_every_byte_written_so_far', '(*final(self).buf)@.len() == (*old(self).buf)@.len() + cnt && (*final(self).buf)@.take((*old(self).buf)@.len() as int) == (*old(self).buf)@ && ' + fr, PE)])
     u.fn(B, 'chunk_mut', within=he, display='EncodeBuf::chunk_mut', props=PE,
          ensures=[Clause('E7_handing_out_spare_capacity_writes_nothing', '(*final(self).buf)@ == (*old(self).buf)@ && ' + fr, PE)])
-    u.fn(B, 'put', within=he, display='EncodeBuf::put', props=PE, sig_edits=[lambda t: t.sub_code('R12', r'T: Buf', 'T: HasBytes')],
+    u.fn(B, 'put', within=he, display='EncodeBuf::put', props=PE, sig_edits=[lambda t: t.sub_code('R12', r'T: Buf', 'T: SrcBuf')],
          ensures=[Clause('E8_a_buffer_is_appended_whole', '(*final(self).buf)@ == (*old(self).buf)@ + src.bytes_view() && ' + fr, PE)])
     u.close('}')
     return u
